@@ -19,6 +19,10 @@ class Crash(BaseException):
     pass
 
 
+class ModelGap(BaseException):
+    """the code under test used an os facility this model does not have: harness error, never a violation"""
+
+
 class Inode:
     def __init__(self, mode, data=b''):
         self.kernel = data
@@ -192,6 +196,27 @@ class FakePath:
 
     exists = lexists
 
+    def isfile(self, p):
+        self.fs.tick('lexists')
+        return p in self.fs.names
+
+    def normpath(self, p):
+        return real_os.path.normpath(p)
+
+    def realpath(self, p):
+        return p
+
+    def split(self, p):
+        return real_os.path.split(p)
+
+    def splitext(self, p):
+        return real_os.path.splitext(p)
+
+    def __getattr__(self, name):
+        if name.startswith('__'):
+            raise AttributeError(name)
+        raise ModelGap('os.path.%s is not modelled by vf.fakeos' % name)
+
 
 class FakeOS:
     name = 'posix'
@@ -223,6 +248,10 @@ class FakeOS:
             if flags & real_os.O_EXCL:
                 raise FileExistsError(errno.EEXIST, 'File exists', p)
             ino = self.fs.names[p]
+            if flags & real_os.O_TRUNC:
+                ino.kernel = b''
+                ino.durable = 0
+                ino.log.append('truncate')
         else:
             if not flags & real_os.O_CREAT:
                 raise FileNotFoundError(errno.ENOENT, 'No such file or directory', p)
@@ -274,8 +303,62 @@ class FakeOS:
         if isinstance(f, FakeTextFile):
             f = f.buffer
         if isinstance(f, FakeFile):
-            f.ino.durable = len(f.ino.kernel)
-            f.ino.log.append('fsync')
+            f = f.ino
+        if isinstance(f, Inode):
+            f.durable = len(f.kernel)
+            f.log.append('fsync')
+
+    fdatasync = fsync
+
+    # raw descriptor calls (the "descriptor" handed out by open() is the inode itself)
+    def close(self, fd):
+        self.fs.tick('close')
+        if not isinstance(fd, Inode):
+            raise OSError(errno.EBADF, 'Bad file descriptor')
+        fd.log.append('close(fd)')
+
+    def write(self, fd, data):
+        self.fs.tick('write')
+        if not isinstance(fd, Inode):
+            raise OSError(errno.EBADF, 'Bad file descriptor')
+        fd.kernel = fd.kernel + bytes(data)
+        fd.log.append('write')
+        fd.log.append('write(2)')
+        return len(data)
+
+    def ftruncate(self, fd, length):
+        self.fs.tick('ftruncate')
+        ino = fd.ino if isinstance(fd, FakeFile) else fd
+        ino.kernel = ino.kernel[:length] + b'\0' * max(0, length - len(ino.kernel))
+        ino.durable = min(ino.durable, length)
+
+    def fstat(self, fd):
+        ino = fd.ino if isinstance(fd, FakeFile) else fd
+
+        class R:
+            pass
+        r = R()
+        r.st_mode = real_stat.S_IFREG | ino.mode
+        r.st_size = len(ino.kernel)
+        return r
+
+    def fchmod(self, fd, mode):
+        self.fs.tick('chmod')
+        ino = fd.ino if isinstance(fd, FakeFile) else fd
+        ino.mode = int(mode) & 0o7777
+
+    def getpid(self):
+        return 4242
+
+    def fspath(self, p):
+        return real_os.fspath(p)
+
+    def __getattr__(self, name):
+        if name.startswith('__'):
+            raise AttributeError(name)
+        if name.startswith('O_') or name.startswith('SEEK_') or name in ('EX_OK', 'F_OK', 'R_OK', 'W_OK', 'X_OK', 'linesep', 'curdir', 'pardir', 'extsep'):
+            return getattr(real_os, name)
+        raise ModelGap('os.%s is not modelled by vf.fakeos' % name)
 
 
 def install(fu, fs):
